@@ -353,7 +353,21 @@ class Executor:
         self.defs = {}
         self.c = contract
         self.mod = load_module(contract.module)
-        self.fnode = self.mod.funcs.get(contract.qualname)
+        self.fnode = self.mod.funcs.get(contract.qualname.split("@")[0])
+        frag = getattr(contract, "options", {}).get("fragment")
+        if frag and self.fnode is not None:
+            # mechanical extraction of one top-level loop of the real function as a function of its free variables:
+            # everything before and after the loop (argument validation, list building, reshape) is dropped
+            kind, which = frag
+            tl = [n for n in self.fnode.body if isinstance(n, (ast.For, ast.While))]
+            loop = tl[which]
+            ret = ast.Return(value=ast.Name(id=getattr(contract, "options", {}).get("fragment_result", "out"), ctx=ast.Load()))
+            f2 = ast.FunctionDef(name=self.fnode.name, args=ast.arguments(posonlyargs=[], args=[ast.arg(arg=a) for a in contract.params],
+                                                                           kwonlyargs=[], kw_defaults=[], defaults=[]),
+                                 body=[loop, ret], decorator_list=[], lineno=loop.lineno, col_offset=0)
+            ast.fix_missing_locations(f2)
+            f2.lineno = loop.lineno
+            self.fnode = f2
         self.obls = []
         self.suppress = 0
         self.specmod = specmod          # python module object holding spec functions (for inlining their AST)
@@ -410,6 +424,14 @@ class Executor:
             st.env[name] = VFunc("param:" + name, handler=None)
         elif ty == "dict":
             st.env[name] = VOpaque(z3.Const(name, VOpaque.SORT))
+        elif ty in ("Lf", "Li"):
+            # python list of floats / ints: array + symbolic length
+            cell = "param:" + name
+            ln = z3.Int("%s.shape0" % name)
+            st.pc.append(ln >= 0)
+            st.heap[cell] = ArrData(z3.Const(name, arr_sort(ty[1], 1)), [ln], ty[1], roots={name})
+            st.heap[cell].is_list = True
+            st.env[name] = VRef(cell)
         elif ty[0] in "fib" and ty[1:].isdigit():
             et, nd = ty[0], int(ty[1:])
             cell = "param:" + name
@@ -1626,6 +1648,19 @@ class Executor:
                 cell = new_cell("copy")
                 st.heap[cell] = ArrData(a.elems, a.shape, a.et, frozenset(), True)
                 return VRef(cell)
+            if meth == "append" and len(args) == 1 and a.ndim == 1:
+                v = self.unwrap_elem(a, args[0], n)
+                self.note_write(st, selfv, n)
+                na = ArrData(z3.Store(a.elems, a.shape[0], v), [a.shape[0] + 1], a.et, a.roots, a.fresh)
+                na.is_list = True
+                st.heap[selfv.cell] = na
+                return VNone()
+            if meth in ("any", "all") and a.et == "b" and not args:
+                ks = [z3.Int(fresh_name("k")) for _ in range(a.ndim)]
+                rng = z3.And(*[z3.And(k >= 0, k < sh) for k, sh in zip(ks, a.shape)])
+                if meth == "any":
+                    return VBool(z3.Exists(ks, z3.And(rng, a.select(ks))))
+                return VBool(z3.ForAll(ks, z3.Implies(rng, a.select(ks))))
             if meth == "fill":
                 v = self.unwrap_elem(a, args[0], n)
                 st.heap[selfv.cell] = a.with_elems(const_array(a.et, a.ndim, v))
@@ -2125,6 +2160,9 @@ class Executor:
                 raise Unsupported("range step %s" % step, s)
             target = s.target
         else:
+            if isinstance(it, ast.Call) and isinstance(it.func, ast.Name) and it.func.id == "zip" and ls is not None and \
+                    isinstance(s.target, ast.Tuple) and len(s.target.elts) == len(it.args):
+                return self.zip_loop(s, k, ls, st, it, spec)
             enum = isinstance(it, ast.Call) and isinstance(it.func, ast.Name) and it.func.id == "enumerate" and len(it.args) == 1
             enum_index_name = None
             coll = self.ev(it.args[0] if enum else it, st, spec)
@@ -2180,6 +2218,31 @@ class Executor:
             guard = lambda i: z3.If(fwd, i < hi, i > hi)
         return self.cut_loop(s, k, ls, st, bind, lo, step, in_range, guard, spec)
 
+    def zip_loop(self, s, k, ls, st, it, spec):
+        """for a, b in zip(A, B) over arrays / lists: index loop over the common length (obligation: equal lengths)"""
+        colls = [self.ev(a, st, spec) for a in it.args]
+        if not all(isinstance(c, VRef) for c in colls):
+            raise Unsupported("zip over non-arrays", s)
+        lens = [st.heap[c.cell].shape[0] for c in colls]
+        for ln in lens[1:]:
+            self.oblige(st, "assert", "%s.ziplen" % self.line_tag(s), ln == lens[0], s, desc="zip operands have equal length")
+        if ls.index is None:
+            raise ContractMismatch("loop #%d of %s iterates zip(...): the contract must name the index" % (k, self.c.key))
+        lo, hi = z3.IntVal(0), lens[0]
+
+        def bind(state, iv):
+            state.env[ls.index] = VInt(iv)
+            for t, c in zip(s.target.elts, colls):
+                a = state.heap[c.cell]
+                if a.ndim == 1:
+                    self.assign(t, self.wrap_elem(a, a.select([iv])), state, s, spec)
+                else:
+                    cell = new_cell("row")
+                    state.heap[cell] = ArrData(a.select([iv]), a.shape[1:], a.et, a.roots, False)
+                    self.assign(t, VRef(cell), state, s, spec)
+        end = z3.If(hi > lo, hi, lo)
+        return self.cut_loop(s, k, ls, st, bind, lo, 1, lambda i: z3.And(i >= lo, i <= end), lambda i: i < hi, spec)
+
     def unroll_for(self, s, items, st, spec):
         states = [st]
         done = []
@@ -2231,6 +2294,7 @@ class Executor:
     def havoc(self, st, s, ls, probe_states):
         names, stores, calls = assigned_names(s.body)
         names |= set(ls.modifies_extra)
+        appended = set()
         # arrays modified through calls with a modifies clause
         for c in calls:
             f = c.func
@@ -2252,8 +2316,10 @@ class Executor:
                             stores.add(kw.value.id)
         # method calls that write in place
         for c in calls:
-            if isinstance(c.func, ast.Attribute) and c.func.attr in ("fill", "sort") and isinstance(c.func.value, ast.Name):
+            if isinstance(c.func, ast.Attribute) and c.func.attr in ("fill", "sort", "append") and isinstance(c.func.value, ast.Name):
                 stores.add(c.func.value.id)
+                if c.func.attr == "append":
+                    appended.add(c.func.value.id)
         for nm in sorted(names):
             cands = [p.env[nm] for p in probe_states if nm in p.env]
             if nm in st.env:
@@ -2298,6 +2364,12 @@ class Executor:
                 cell = st.env[nm].cell
                 a = st.heap[cell]
                 st.heap[cell] = a.with_elems(fresh_array("hv_" + nm, a.et, a.ndim))
+                if nm in appended:
+                    ln = z3.Int(fresh_name(nm + ".len"))
+                    st.pc.append(ln >= 0)
+                    na = ArrData(st.heap[cell].elems, [ln], a.et, a.roots, a.fresh)
+                    na.is_list = True
+                    st.heap[cell] = na
 
     def cut_loop(self, s, k, ls, st, bind, lo, step, in_range, guard, spec):
         is_for = isinstance(s, ast.For)
